@@ -295,6 +295,19 @@ def run(ctx):
             if arg is None or not isinstance(arg, ast.Name):
                 continue
             ds = [x for x in sched.reaching_defs(f, g, c, arg.id, within) if isinstance(x, ast.Assign)]
+            # a plain copy (`job_cpu = cpu_of_helper`) stands for what it copies
+            ds2 = []
+            for x in ds:
+                cur = x
+                for _ in range(3):
+                    if isinstance(cur.value, ast.Name):
+                        up = [y for y in sched.reaching_defs(f, g, cur, cur.value.id) if isinstance(y, ast.Assign)]
+                        if len(up) == 1:
+                            cur = up[0]
+                            continue
+                    break
+                ds2.append(cur)
+            ds = ds2
             vals = {norm.U(x.value) for x in ds}
             okd = any(ratform.same(x.value, ratform.parse(f"2 * {rsn}.old_{res}")) for x in ds)
             ctx.ob(5, "K7", f"the retry asks for twice the failed container's {res.upper()}", okd, f, c, construct=f"retry request {res} = 2*old", detail=f"definitions reaching the Assignment: {sorted(vals)}")
